@@ -617,6 +617,9 @@ pub fn post_step(w: &mut World, s: &mut Session, ctx: &PostCtx) -> Result<(), Vi
     if o.fat_copies {
         fat_mirror_check(w)?;
     }
+    if o.alias_rules && ctx.out.mutating {
+        alias_check(w, &after)?;
+    }
     if o.dirty_bit {
         dirty_check(w, "after call")?;
     }
@@ -947,5 +950,57 @@ pub fn after_session(w: &mut World, how: u8, pre_end: &Store) -> Result<(), Viol
         }
     }
     let _ = LfnVerdict::None;
+    Ok(())
+}
+
+/// C16: raw 11-byte short names are legal 8.3 names (upper case, legal characters, space padding only at the
+/// tail of each part) -- uniqueness and the long-name checksum tie are findings of the independent fsck.
+pub fn alias_check(w: &mut World, p: &Parsed) -> Result<(), Violation> {
+    let mut hash_form = 0u64;
+    let mut tail_form = 0u64;
+    fn legal(b: u8) -> bool {
+        b.is_ascii_uppercase() || b.is_ascii_digit() || b"!#$%&'()-@^_`{}~".contains(&b)
+    }
+    for d in &p.dirs {
+        for (ei, e) in d.entries.iter().enumerate() {
+            if !d.is_root && ei < 2 && (e.is_dot() || e.is_dotdot()) {
+                continue;
+            }
+            let n = &e.sfn;
+            if let Some(t) = n[..8].iter().position(|b| *b == b'~') {
+                if t >= 4 && n[t - 4..t].iter().all(|b| b.is_ascii_hexdigit()) && t <= 6 {
+                    hash_form += 1;
+                } else {
+                    tail_form += 1;
+                }
+            }
+            let mut bad: Option<String> = None;
+            if n[0] == b' ' || n[0] == 0xE5 || n[0] == 0 || n[0] == 0x05 {
+                bad = Some("illegal first byte".into());
+            }
+            for part in [&n[..8], &n[8..]] {
+                let len = part.iter().rposition(|x| *x != b' ').map_or(0, |x| x + 1);
+                for (i, b) in part.iter().enumerate() {
+                    if i < len && !legal(*b) {
+                        bad = Some(format!("byte {:#04x} is not a legal short-name character", b));
+                    }
+                }
+            }
+            if let Some(why) = bad {
+                return Err(viol("C16", "illegal-short-name", format!("{:?} for long name {}: {}", String::from_utf8_lossy(n), String::from_utf16_lossy(&e.name_units(&|_| '?')), why), w.step_no));
+            }
+            // the alias must belong to this long name: every LFN slot carries the checksum of these 11 bytes
+            if let LfnVerdict::Broken(why) = &e.lfn {
+                return Err(viol("C16", "alias-not-tied-to-long-name", format!("{:?}: {}", String::from_utf8_lossy(n), why), w.step_no));
+            }
+        }
+        for f in &d.findings {
+            if f.kind == "dup-short" {
+                return Err(viol("C16", "duplicate-short-name", f.detail.clone(), w.step_no));
+            }
+        }
+    }
+    w.stats.alias_hash_form = w.stats.alias_hash_form.max(hash_form);
+    w.stats.alias_tail_form = w.stats.alias_tail_form.max(tail_form);
     Ok(())
 }
